@@ -19,15 +19,15 @@ theorem perm_definitions_values (s : SchemaD) (fx : Fixes) {d d' : Doc} (h : d.d
 
 /-! ### SingleFieldSubscriptions -/
 
-theorem get?_foldl_set_not_mem' {α : Type} (k : String) : ∀ (l : List (String × α)) (m : AL α), k ∉ l.map (·.1) →
+theorem get?_foldl_set_not_mem_gen {α : Type} (k : String) : ∀ (l : List (String × α)) (m : AL α), k ∉ l.map (·.1) →
     AL.get? (l.foldl (fun acc f => AL.set acc f.1 f.2) m) k = AL.get? m k
   | [], _, _ => rfl
   | f :: l, m, h => by
     simp only [List.map_cons, List.mem_cons, not_or] at h
     simp only [List.foldl_cons]
-    rw [get?_foldl_set_not_mem' k l _ h.2, AL.get?_set, if_neg h.1]
+    rw [get?_foldl_set_not_mem_gen k l _ h.2, AL.get?_set, if_neg h.1]
 
-theorem get?_foldl_set_mem' {α : Type} (k : String) (v : α) : ∀ (l : List (String × α)) (m : AL α), (l.map (·.1)).Nodup →
+theorem get?_foldl_set_mem_gen {α : Type} (k : String) (v : α) : ∀ (l : List (String × α)) (m : AL α), (l.map (·.1)).Nodup →
     (k, v) ∈ l → AL.get? (l.foldl (fun acc f => AL.set acc f.1 f.2) m) k = some v
   | [], _, _, h => by cases h
   | f :: l, m, hnd, h => by
@@ -35,17 +35,17 @@ theorem get?_foldl_set_mem' {α : Type} (k : String) (v : α) : ∀ (l : List (S
     simp only [List.foldl_cons]
     rcases List.mem_cons.mp h with e | h'
     · subst e
-      rw [get?_foldl_set_not_mem' k l _ hnd.1, AL.get?_set, if_pos rfl]
-    · exact get?_foldl_set_mem' k v l _ hnd.2 h'
+      rw [get?_foldl_set_not_mem_gen k l _ hnd.1, AL.get?_set, if_pos rfl]
+    · exact get?_foldl_set_mem_gen k v l _ hnd.2 h'
 
-theorem get?_foldl_set_perm' {α : Type} {l l' : List (String × α)} (h : l.Perm l') (hnd : (l.map (·.1)).Nodup) (k : String) :
+theorem get?_foldl_set_perm_gen {α : Type} {l l' : List (String × α)} (h : l.Perm l') (hnd : (l.map (·.1)).Nodup) (k : String) :
     AL.get? (l.foldl (fun acc f => AL.set acc f.1 f.2) []) k = AL.get? (l'.foldl (fun acc f => AL.set acc f.1 f.2) []) k := by
   have hnd' : (l'.map (·.1)).Nodup := (h.map _).nodup_iff.mp hnd
   by_cases hk : k ∈ l.map (·.1)
   · obtain ⟨p, hp, rfl⟩ := List.mem_map.mp hk
-    rw [get?_foldl_set_mem' p.1 p.2 l [] hnd hp, get?_foldl_set_mem' p.1 p.2 l' [] hnd' (h.mem_iff.mp hp)]
+    rw [get?_foldl_set_mem_gen p.1 p.2 l [] hnd hp, get?_foldl_set_mem_gen p.1 p.2 l' [] hnd' (h.mem_iff.mp hp)]
   · have hk' : k ∉ l'.map (·.1) := fun h' => hk ((h.map _).mem_iff.mpr h')
-    rw [get?_foldl_set_not_mem' k l [] hk, get?_foldl_set_not_mem' k l' [] hk']
+    rw [get?_foldl_set_not_mem_gen k l [] hk, get?_foldl_set_not_mem_gen k l' [] hk']
 
 /-- name and selections of the fragment definitions -/
 def fragSelPairs (d : Doc) : List (String × List Sel) :=
@@ -69,7 +69,7 @@ theorem fragSelPairs_names (d : Doc) : (fragSelPairs d).map (·.1) = Spec.fragNa
 theorem sfsTable_perm {d d' : Doc} (h : d.defs.Perm d'.defs) (hnd : Spec.uniqueFragmentNames d) (k : String) :
     AL.get? (sfsTable d) k = AL.get? (sfsTable d') k := by
   rw [sfsTable_as_pairs, sfsTable_as_pairs]
-  refine get?_foldl_set_perm' (l := fragSelPairs d) (l' := fragSelPairs d') (h.filterMap _) ?_ k
+  refine get?_foldl_set_perm_gen (l := fragSelPairs d) (l' := fragSelPairs d') (h.filterMap _) ?_ k
   rw [fragSelPairs_names]; exact hnd
 
 theorem sfsBound_perm {d d' : Doc} (h : d.defs.Perm d'.defs) : sfsBound d = sfsBound d' := by
